@@ -644,7 +644,7 @@ func isASCIIControl(c byte) bool {
 //
 // [Unicode whitespace character]: https://spec.commonmark.org/0.30/#unicode-whitespace-character
 func isUnicodeWhitespace(c rune) bool {
-	return (c <= 0x7f && isSpaceTabOrLineEnding(byte(c))) || unicode.Is(unicode.Zs, c)
+	return (c <= 0x7f && (isSpaceTabOrLineEnding(byte(c)) || c == '\f')) || unicode.Is(unicode.Zs, c)
 }
 
 // isUnicodePunctuation reports whether the code point is a [Unicode punctuation character].
